@@ -35,24 +35,29 @@ structure Decoded where
 
 def knownArgs : List String := ["uid", "subjects", "effect", "resources", "actions", "context", "rules", "description"]
 
+/-- a context dictionary: either abstracted to the list of its keys (`.list`, used where only the shape
+matters) or given in full (`.dict`, used by the rule codec) -/
+def isDictLike : PyVal → Bool
+  | .list _ => true
+  | .dict _ => true
+  | _ => false
+
+/-- the context the constructor ends up with: `context`, else the deprecated `rules`, else empty -/
+def ctxOf (props : Doc) : PyVal :=
+  match get "context" props with              -- absent = None
+  | .none => if truthy (get "rules" props) then get "rules" props else .list []
+  | c => c
+
 /-- `Policy.__init__(**props)` as far as decoding is concerned -/
 def construct (props : Doc) : Except DocErr Decoded :=
   if props.any (fun kv => !(knownArgs.map String.toList).contains kv.1) then .error .typeError
-  else
-    let eff := get "effect" props
-    let ctx0 := get "context" props              -- absent = None
-    let rules := get "rules" props
-    let ctx := match ctx0 with
-      | .none => if truthy rules then rules else .list []
-      | c => c
-    match ctx with
-    | .list _ =>
-      .ok { uid := get "uid" props,
-            effect := if truthy eff then eff else .str Generated.denyConst,
-            description := get "description" props,
-            subjects := get "subjects" props, resources := get "resources" props, actions := get "actions" props,
-            context := ctx }
-    | _ => .error .creation                       -- context must be a dictionary
+  else if isDictLike (ctxOf props) then
+    .ok { uid := get "uid" props,
+          effect := if truthy (get "effect" props) then get "effect" props else .str Generated.denyConst,
+          description := get "description" props,
+          subjects := get "subjects" props, resources := get "resources" props, actions := get "actions" props,
+          context := ctxOf props }
+  else .error .creation                         -- context must be a dictionary
 
 /-- `Policy.from_json` after `jsonpickle.decode` -/
 def fromDoc (d : Doc) : Except DocErr Decoded :=
